@@ -39,13 +39,13 @@ func init() {
 	})
 	register(&Prop{
 		ID:    "C10",
-		Rules: []func(*core.Ctx){RGuard, RPanic, RFatal, RNilMatch, RCatTable, rDirFoldOnly, RIdxSib, RGrowCmp, REmptyIter, RRuneWidth, RMakeArg, RLim5, RUnits, RStartRange, RRuneIdx, RCrawlPair},
+		Rules: []func(*core.Ctx){RGuard, RPanic, RFatal, RNilMatch, RCatTable, rDirFoldOnly, RIdxSib, RGrowCmp, REmptyIter, RRuneWidth, RMakeArg, RLim5, RUnits, RStartRange, RRuneIdx, RCrawlPair, RErrProp},
 		Explanation: "R-GUARD: abstract interpretation (lower bound on charsRight(), difference bounds for mirror variables, saved positions) over go/cfg of every function of package syntax that uses the parser's position primitives: each pattern read is proven to be preceded on every path by a sufficient length test; who-may-index p.pattern / who-may-write currentPos; _category index bounds. " +
 			"Decides the parser part of 'no panic on any pattern'. Not decided: index arithmetic outside the parser, non-termination.",
 	})
 	register(&Prop{
 		ID:    "C13",
-		Rules: []func(*core.Ctx){RLim, RLim5, RQuickSame},
+		Rules: []func(*core.Ctx){RLim, RLim5, RQuickSame, RErrProp},
 		Explanation: "R-LIM1 who-may-allocate the backtracking stack and SSA proof that every allocation length is clamped by the limit; R-LIM2 who-may-read the limit and forward slice of its value (sizes, bounds, branch conditions, bool result only) plus the end-relative copy/shift shape; R-LIM3 error discipline of ensureStorage/goTo/backtrack/execute and single producer of ErrBacktrackingStackLimit; R-LIM4 push budget per opcode and per emitFragment path against the ensureStorage multiplier, capacity-check comparisons, who-writes runtrack[...]. " +
 			"These are the static ingredients of 'never more than L slots, never a panic, no other influence'. The runtime invariant (free >= K*TrackCount at each backward jump suffices until the next) is NOT proven.",
 	})
@@ -63,55 +63,55 @@ func init() {
 	})
 	register(&Prop{
 		ID:    "C07",
-		Rules: []func(*core.Ctx){RSeq, RFwdOnly, RSentinelArg, RUnitCmp, RPrevInit, RMapState, RMinLenZero, RNoMatchExit},
+		Rules: []func(*core.Ctx){RSeq, RFwdOnly, RSentinelArg, RUnitCmp, RPrevInit, RMapState, RMinLenZero, RNoMatchExit, RAnchorSrc},
 		Explanation: "Structural skeleton of match iteration on SSA: R-NEXT (every continued search passes X.textpos and X.RuneLength of the same match X), R-EMPTYBUMP (after an empty previous match every path bumps before searching; stop tests use the direction-selected stoppos), R-ADVANCE (loop variant of scan's attempt loop), R-TEXTPOS (both arms of tidyMatch record the resume position), R-DIRFOLD (folds over the match sequence are direction-aware), R-COUNTN (the find-all limit is charged only for reported matches). " +
 			"Necessary for ordered, terminating iteration. Strict monotonicity of the returned matches (which depends on findFirstChar/execute never moving the attempt position backwards) and the length+1 bound are NOT decided.",
 	})
 	register(&Prop{
 		ID:    "C02",
-		Rules: []func(*core.Ctx){RFunnel, RQuick, RQuickOmit, RQuickSame, RLiveOps, RWholeText, RRtlFilter, RFFFDFilter, ROrigin, RMask, RStepDecode},
+		Rules: []func(*core.Ctx){RFunnel, RQuick, RQuickOmit, RQuickSame, RLiveOps, RWholeText, RRtlFilter, RFFFDFilter, ROrigin, RMask, RStepDecode, RTextEnd},
 		Explanation: "All entry points reach the one scan funnel (R-FUNNEL, call graph); the capture-free quick program is active only where the returned match is merely nil-tested or read for position (R-QUICK, SSA def-use), and the liveness scan that builds it masks opcode flags (R-MASK); the left-to-right raw-string filter is never consulted for right-to-left programs (R-RTLFILTER, dominance); a filter candidate never becomes the \\G origin (R-ORIGIN, interprocedural taint). " +
 			"These are structural preconditions for the entry points to agree; that scan returns the same result for the same arguments, the index conversions and the Replace/Split folds are decided elsewhere or not at all.",
 	})
 	register(&Prop{
 		ID:    "C03",
-		Rules: []func(*core.Ctx){ROrigin, RMode, RMinLen, RRtlFilter, RFixedDistSib, RTableDom, RLmMin, RDirTrunc, RSentinel, RBumpWalk, RDeadCopy, RFwdOnly, RCaseBit, RLmAlt, RFailProp, RMinLenZero, RCiExact, RNoMatchExit, RLmStart},
+		Rules: []func(*core.Ctx){ROrigin, RMode, RMinLen, RRtlFilter, RFixedDistSib, RTableDom, RLmMin, RDirTrunc, RSentinel, RBumpWalk, RDeadCopy, RFwdOnly, RCaseBit, RLmAlt, RFailProp, RMinLenZero, RCiExact, RNoMatchExit, RLmStart, RGapKind},
 		Explanation: "R-ORIGIN (a candidate proposed by the accelerator never becomes the \\G origin: interprocedural taint from the filter result to scan's textstart), R-MODE (producer/consumer agreement on the find-mode record: every field a finder arm reads is assigned before the mode is set; accepted modes have a finder), R-MINLEN (the minimum-length fact is used only as a bound on the remaining length), R-RTLFILTER, R-TABLEDOM (every entry the Boyer-Moore builder records is within reach of the scanner's lookups: writer/reader guard agreement), R-LMMIN (the landmark-chain search continues from the minimal, not the greedy, end of a landmark). " +
 			"Structural conditions for the accelerator to be a pure accelerator. The arithmetic of each finder and the truth of the facts (C04) are NOT decided.",
 	})
 	register(&Prop{
 		ID:    "C05",
-		Rules: []func(*core.Ctx){RDirCtx, RAtomCtx, RAtomSucc, ROverlapNeg, RMinLenUse, RAtomFlags, ROptLoop, RXField, RAtomMerge, RAtomRep, RSelfShift, REndChild, RBoundSet, RDistinct},
+		Rules: []func(*core.Ctx){RDirCtx, RAtomCtx, RAtomSucc, ROverlapNeg, RMinLenUse, RAtomFlags, ROptLoop, RXField, RAtomMerge, RAtomRep, RSelfShift, REndChild, RBoundSet, RDistinct, RAnchorSrc},
 		Explanation: "R-DIRCTX (left-to-right-only reasoning about a Multi's first rune is confined to left-to-right context: local dominance by a direction test or a guarded-call-site fixpoint over the static call graph), R-ATOMCTX (ending-backtracking elimination is invoked only from the five contexts nothing can backtrack into), R-OPTLOOP (a loop's child is treated as following content only under M > 0). " +
 			"These are side conditions every rewrite must respect; the substance of the property (class disjointness, nullability, equality with the un-rewritten pattern) is NOT decided.",
 	})
 	register(&Prop{
 		ID:    "C04",
-		Rules: []func(*core.Ctx){RAcc, RAccCap, RNarrow, RAltMerge, ROptLoop, RNegChars, RDefault, RCompl, RNegFresh, RAltAll, RByteRune, RRuneCut, RMaxAsMin, RCatsToo, RScratch, RFailFirst, RFailProp, RLoopSib, RLookFact},
+		Rules: []func(*core.Ctx){RAcc, RAccCap, RNarrow, RAltMerge, ROptLoop, RNegChars, RDefault, RCompl, RNegFresh, RAltAll, RByteRune, RRuneCut, RMaxAsMin, RCatsToo, RScratch, RFailFirst, RFailProp, RLoopSib, RLookFact, RBufAlias, RDistAdd, RGapKind},
 		Explanation: "Shape conditions every prefix / set / length analysis must meet for what it publishes to be an over-approximation: R-ACC (accumulate-until-stop protocol on SSA paths), R-ACCCAP (a capped loop expansion reports 'fully processed' only through the cap), R-NARROW (the shared prefix of an alternation only shrinks), R-ALTMERGE (an offset is common to all branches only if every branch was merged), R-OPTLOOP (a loop's child is required only under M > 0), R-NEGCHARS (callers of GetSetChars consult IsNegated), R-DEFAULT (unknown node kinds yield 'know nothing'), R-COMPL (complement-of-one-character constructions guard each half by its own constant end), R-NEGFRESH (the negate flag is set only on sets created on the spot or known empty). " +
 			"That the recorded strings, sets and lengths are right for the pattern's language is a semantic property and is NOT decided.",
 	})
 	register(&Prop{
 		ID:    "C15",
-		Rules: []func(*core.Ctx){RDirAcc, RDirBits, RReverse, RLookDir, RDirCtx, RDirTrunc, RNonNegLen, RAnchorSib, RBmDir, RSib, rDirFoldOnly, RLookFact, REndChild},
+		Rules: []func(*core.Ctx){RDirAcc, RDirBits, RReverse, RLookDir, RDirCtx, RDirTrunc, RNonNegLen, RAnchorSib, RBmDir, RSib, rDirFoldOnly, RLookFact, REndChild, RTextEnd},
 		Explanation: "Structural carriers of direction: R-DIRACC (who may move the text position), R-DIRBITS (every text-consuming emit carries the node's Rtl bit), R-REVERSE (concatenations are attached reversed), R-LOOKDIR (lookahead clears / lookbehind sets the direction), R-DIRCTX (left-to-right-only reasoning stays in left-to-right context), R-SIB (sibling handlers agree, including on bump()), R-DIRFOLD (folds over the match sequence are direction-aware). " +
 			"That each right-to-left branch computes the mirrored result is NOT decided.",
 	})
 	register(&Prop{
 		ID:    "C16",
-		Rules: []func(*core.Ctx){RSub, RSubFirst, RBitmap, RCaseRecur, RRangeFlush, RCatTable, RNegChars, RFlipAdd, RNegFresh, RKeyInj, ROr20, RWordSib, RCopyAll, RUnionRet, RGapRune, RSetCodec, RCatsToo, RDialectSib, RCatPred, RRangePend, RTentative, RPosixASCII, RUnionNeg, RAnySub, RAddMono, RDistinct},
+		Rules: []func(*core.Ctx){RSub, RSubFirst, RBitmap, RCaseRecur, RRangeFlush, RCatTable, RNegChars, RFlipAdd, RNegFresh, RKeyInj, ROr20, RWordSib, RCopyAll, RUnionRet, RGapRune, RSetCodec, RCatsToo, RDialectSib, RCatPred, RRangePend, RTentative, RPosixASCII, RUnionNeg, RAnySub, RAddMono, RDistinct, REscLiteral},
 		Explanation: "R-SUB (no observer or transformer of a class ignores its subtraction; canonicalize rewrites only under sub == nil; addSet / enumeration operands are tested), R-BITMAP (the ASCII fast path is charInSlow tabulated over exactly 0..127, guarded, never copied, never stale), R-CASERECUR (a subtraction is parsed with the same case flag), R-CATTABLE (a category name is accepted only with a table), R-NEGCHARS (callers of GetSetChars honour negation), R-FLIPADD (members are never added to a class after canonicalize has rewritten it in negated form without restoring the positive form first), R-NEGFRESH (negate is switched on only for sets created on the spot or known empty). " +
 			"Membership itself — range arithmetic, the lowercase tables, category evaluation order — is NOT decided.",
 	})
 	register(&Prop{
 		ID:    "C17",
-		Rules: []func(*core.Ctx){RSlot, RCapsKey, RCapNode, RSkipTaken, ROptStack, RIgnParen, RDigitAcc, RLazyBuf, RLazyFull, RNameOnce, RParserFresh, RNoAlias, RPrescanSib},
+		Rules: []func(*core.Ctx){RSlot, RCapsKey, RCapNode, RSkipTaken, ROptStack, RIgnParen, RDigitAcc, RLazyBuf, RLazyFull, RNameOnce, RParserFresh, RNoAlias, RPrescanSib, ROptWrite},
 		Explanation: "R-SLOT (group numbers reach slot indexes only through the number->slot maps, in the writer, the replacement data, GroupByNumber and initMatch; internal GroupByNumber callers pass numbers, not dense indexes), R-CAPNODE (every capture node created by the main parse accounts for its slot like the pre-scan does), R-SKIPTAKEN (a named group gets the next number that is not taken). " +
 			"That the pre-scan and the main parse assign the same numbers in every case, name ordering and duplicate-name rules are NOT decided.",
 	})
 	register(&Prop{
 		ID:    "C18",
-		Rules: []func(*core.Ctx){RTopOnly, ROptStack, ROptSign, ROptCache, RNodeOpts, RParserFresh, ROptMemo, RPrescanSib},
+		Rules: []func(*core.Ctx){RTopOnly, ROptStack, ROptSign, ROptCache, RNodeOpts, RParserFresh, ROptMemo, RPrescanSib, ROptWrite, RInlineMask},
 		Explanation: "R-TOPONLY (compile-time option words are only handed on whole or masked with options that cannot be set inline, so every inline-settable option is read from where inline groups put it), R-OPTSTACK (push/pop discipline of the option stack in both passes: pop kinds per arm, and per-path balance against opened groups). " +
 			"That the three spellings produce the same tree is NOT decided.",
 	})
@@ -135,13 +135,13 @@ func init() {
 	})
 	register(&Prop{
 		ID:    "C09",
-		Rules: []func(*core.Ctx){RRepConst, RRepCases, RRepID, RFoldExit, RCommitPos, RCompact, RLoopMatch, rDirFoldOnly, RSlot, RCapsKey, RCachePair, RCompactSib, RFoldSrc, RWholeText},
+		Rules: []func(*core.Ctx){RRepConst, RRepCases, RRepID, RFoldExit, RCommitPos, RCompact, RLoopMatch, rDirFoldOnly, RSlot, RCapsKey, RCachePair, RCompactSib, RFoldSrc, RWholeText, RErrProp},
 		Explanation: "R-REPCONST (encoder and decoder of replacement rules are the same affine map over equal constants), R-REPCASES (every special token has an arm in both expansion functions; the right-to-left expansion collects pieces last-to-first), R-COMPACT (balancing compaction precedes every expansion of the reused match; count discipline of the replace loops), R-DIRFOLD (Split and the replace drivers are direction-aware), R-SLOT (group numbers reach slots through the maps, including inside Split). " +
 			"That the pieces are concatenated with the right text in between, $-grammar ambiguities and identity of $& are NOT decided.",
 	})
 	register(&Prop{
 		ID:    "C14",
-		Rules: []func(*core.Ctx){RLock, RClockEnd, RClockState, RRestart, RPoll, RPeriod, REndCover, RFreshRead, RTickSum, RSelfRun, rStaleOnly, RSentConst},
+		Rules: []func(*core.Ctx){RLock, RClockEnd, RClockState, RRestart, RPoll, RPeriod, REndCover, RFreshRead, RTickSum, RSelfRun, rStaleOnly, RSentConst, RErrProp},
 		Explanation: "Structural skeleton of the timeout machinery only: R-LOCK (fast.start/running under fast.mu, the clock word through sync/atomic), R-CLOCKEND (the clock's end is only raised, under the lock), R-CLOCKSTATE (one place spawns the clock goroutine, under !running; only runClock clears running, after its loop), R-RESTART (a deadline beyond the clock's end always extends the clock), R-POLL (the deadline is polled in scan's and the interpreter's loops), R-STALE (timeout state of a pooled Runner is re-established per call). " +
 			"Every timing statement of the property (no earlier than d, no later than d + a few periods, the stale-clock refresh being right, the goroutine exiting) is NOT decided.",
 	})
